@@ -65,7 +65,23 @@ def generate(rng, tier):
             continue
         gs, gk = gen_groups(rng, spec['n'])
         byname = spec['names'] is not None and rng.random() < 0.7
-        cases.append({'kind': 'maxent', 'spec': spec, 'groups': gs, 'gkind': gk, 'byname': byname, 'sparse_out': rng.random() < 0.7})
+        case = {'kind': 'maxent', 'spec': spec, 'groups': gs, 'gkind': gk, 'byname': byname, 'sparse_out': rng.random() < 0.7}
+        if rng.random() < 0.35:
+            # a preceding call on a distribution of another shape in the same interpreter (stale state between calls)
+            case['warmup'] = {'n': rng.choice([2, 3, 4]), 'a': rng.choice([2, 3]), 'groups': rng.choice(['singletons', 'pairs'])}
+        cases.append(case)
+    for i in range(6 * mult):
+        # homogeneous alphabets, singleton or pair constraints, after a call on another shape
+        n = rng.choice([2, 3])
+        a = rng.choice([2, 3])
+        full = [list(o) for o in itertools.product(range(a), repeat=n)]
+        sup = rng.sample(full, rng.randint(max(2, len(full) // 2), len(full)))
+        ws = [rng.random() + 0.05 for _ in sup]
+        spec = {'n': n, 'klass': 'str', 'alph': [list(range(a))] * n, 'outcomes': sup, 'pmf': [w / sum(ws) for w in ws], 'ss_kind': 'default', 'ss': None,
+                'base': 'linear', 'sparse': True, 'trim': True, 'names': None}
+        gs = [[j] for j in range(n)] if i % 2 == 0 else [list(c) for c in itertools.combinations(range(n), 2)]
+        cases.append({'kind': 'maxent', 'spec': spec, 'groups': gs, 'gkind': 'after-other-shape', 'byname': False, 'sparse_out': True,
+                      'warmup': {'n': 5 - n, 'a': a, 'groups': 'singletons' if i % 2 == 0 else 'pairs'}})
     while len(cases) < 52 * mult:
         spec = G.gen_spec(rng, nmin=2, nmax=3, amax=3, max_ss=27, klasses=('str', 'int'))
         if sum(1 for p in spec['pmf'] if p > 0) < 2:
@@ -129,6 +145,15 @@ def observe(case):
                 'sparse': bool(x.is_sparse())}
     if case['kind'] == 'maxent':
         gs = case['groups']
+        if case.get('warmup'):
+            w = case['warmup']
+            outs = [''.join(map(str, o)) for o in itertools.product(range(w['a']), repeat=w['n'])]
+            wd = dit.Distribution(outs, [1.0 / len(outs)] * len(outs))
+            wg = [[j] for j in range(w['n'])] if w['groups'] == 'singletons' else [list(c) for c in itertools.combinations(range(w['n']), 2)]
+            try:
+                maxent_dist(wd, wg)
+            except Exception:
+                pass
         if case['byname']:
             arg = [[spec['names'][i] for i in g] for g in gs]
             me = maxent_dist(d, arg, sparse=case['sparse_out'])
